@@ -127,21 +127,26 @@ func (f *Frame) storeTarget(li *loopInfo, a ssa.Value, ms *modSet) {
 		}
 	case *ssa.IndexAddr:
 		var es Sort
+		var et types.Type
 		switch u := x.X.Type().Underlying().(type) {
 		case *types.Slice:
-			es = f.w.Sorts.SortOf(u.Elem())
+			et = u.Elem()
+			es = f.w.Sorts.SortOf(et)
 			if base, ok := f.invariantValue(li, x.X); ok {
-				ms.addTarget(memComp(es), memSort(es), SArr(base.T))
+				ms.addTarget(memCompT(et), memSort(es), SArr(base.T))
 				return
 			}
 		case *types.Pointer:
-			es = f.w.Sorts.SortOf(u.Elem().Underlying().(*types.Array).Elem())
+			et = u.Elem().Underlying().(*types.Array).Elem()
+			es = f.w.Sorts.SortOf(et)
 			if base, ok := f.invariantValue(li, x.X); ok && base.Loc == nil {
-				ms.addTarget(memComp(es), memSort(es), base.T)
+				ms.addTarget(memCompT(et), memSort(es), base.T)
 				return
 			}
 		}
-		ms.addFull(memComp(es), memSort(es))
+		if et != nil {
+			ms.addFull(memCompT(et), memSort(es))
+		}
 	case *ssa.Alloc:
 		// object allocated inside the loop: its components change at a fresh address only
 		f.fullPointee(pt.Elem(), ms, true)
@@ -167,7 +172,7 @@ func (f *Frame) fullPointee(t types.Type, ms *modSet, freshOnly bool) {
 		f.fullStruct(t, ms)
 	case *types.Array:
 		es := f.w.Sorts.SortOf(u.Elem())
-		ms.addFull(memComp(es), memSort(es))
+		ms.addFull(memCompT(u.Elem()), memSort(es))
 	default:
 		so := f.w.Sorts.SortOf(t)
 		ms.addFull(cellComp(so), ArraySort(SInt, so))
@@ -196,7 +201,7 @@ func (f *Frame) modViaPointer(p Val, t types.Type, ms *modSet) {
 		}
 	case *types.Array:
 		es := f.w.Sorts.SortOf(u.Elem())
-		ms.addTarget(memComp(es), memSort(es), p.T)
+		ms.addTarget(memCompT(u.Elem()), memSort(es), p.T)
 	default:
 		so := f.w.Sorts.SortOf(t)
 		ms.addTarget(cellComp(so), ArraySort(SInt, so), p.T)
@@ -216,7 +221,7 @@ func (f *Frame) scanMods(li *loopInfo, blocks []*ssa.BasicBlock, ms *modSet, dep
 				ms.alloc = true
 				if mk, ok := ins.(*ssa.MakeSlice); ok {
 					es := f.w.Sorts.SortOf(mk.Type().Underlying().(*types.Slice).Elem())
-					ms.addFull(memComp(es), memSort(es))
+					ms.addFull(memCompT(mk.Type().Underlying().(*types.Slice).Elem()), memSort(es))
 				}
 				if mk, ok := ins.(*ssa.MakeMap); ok {
 					f.modMapType(mk.Type().Underlying().(*types.Map), ms)
@@ -229,7 +234,7 @@ func (f *Frame) scanMods(li *loopInfo, blocks []*ssa.BasicBlock, ms *modSet, dep
 					if u, ok := ins.Type().Underlying().(*types.Slice); ok {
 						ms.alloc = true
 						es := f.w.Sorts.SortOf(u.Elem())
-						ms.addFull(memComp(es), memSort(es))
+						ms.addFull(memCompT(u.Elem()), memSort(es))
 					}
 				}
 			case ssa.CallInstruction:
@@ -264,14 +269,14 @@ func (f *Frame) scanCallMods(li *loopInfo, ins ssa.CallInstruction, ms *modSet, 
 		switch b.Name() {
 		case "append":
 			es := f.w.Sorts.SortOf(common.Args[0].Type().Underlying().(*types.Slice).Elem())
-			ms.addFull(memComp(es), memSort(es))
+			ms.addFull(memCompT(common.Args[0].Type().Underlying().(*types.Slice).Elem()), memSort(es))
 			ms.alloc = true
 		case "copy":
 			es := f.w.Sorts.SortOf(common.Args[0].Type().Underlying().(*types.Slice).Elem())
 			if base, ok := f.invariantValue(li, common.Args[0]); ok {
-				ms.addTarget(memComp(es), memSort(es), SArr(base.T))
+				ms.addTarget(memCompT(common.Args[0].Type().Underlying().(*types.Slice).Elem()), memSort(es), SArr(base.T))
 			} else {
-				ms.addFull(memComp(es), memSort(es))
+				ms.addFull(memCompT(common.Args[0].Type().Underlying().(*types.Slice).Elem()), memSort(es))
 			}
 		case "delete":
 			f.modMap(li, common.Args[0], ms)
@@ -404,7 +409,7 @@ func (f *Frame) modTargetInto(env *SpecEnv, c Clause, ms *modSet) bool {
 		case *types.Slice:
 			// the slice header itself may be loop-variant (read from the heap): use full havoc
 			es := f.w.Sorts.SortOf(u.Elem())
-			ms.addFull(memComp(es), memSort(es))
+			ms.addFull(memCompT(u.Elem()), memSort(es))
 			return true
 		case *types.Map:
 			f.modMapType(u, ms)
@@ -490,7 +495,9 @@ func (f *Frame) havocLoop(li *loopInfo, st State) *Heap {
 	for _, c := range comps {
 		so := ms.sorts[c]
 		if _, full := ms.full[c]; full {
-			heap = heap.Set(c, vc.Fresh("lh."+c, so))
+			fc := vc.Fresh("lh."+c, so)
+			vc.AssumeCompTyping(c, fc)
+			heap = heap.Set(c, fc)
 			if !strings.HasPrefix(c, "L!") {
 				li.fullComps = append(li.fullComps, compRef{c, so})
 			}
@@ -559,6 +566,11 @@ func (w *World) VerifyFunc(fn *ssa.Function) *VC {
 		id := w.FnID(fn)
 		vc.UseFnID(id)
 		vars["fn"] = SVal{T: IntLit(int64(id))}
+	}
+	if fc.Implements != "" && len(args) > 0 {
+		if sv, ok := f.selfIface(fn, args[0]); ok {
+			vars["self"] = sv
+		}
 	}
 	pre := &SpecEnv{W: w, Vars: vars, Heap: heap, Old: heap, Scope: fc.ScopePkg, Side: vc}
 	var preTerms []Term
@@ -763,7 +775,7 @@ func (f *Frame) modTargetExact(env *SpecEnv, c Clause, ms *modSet) bool {
 		switch u := v.Go.Underlying().(type) {
 		case *types.Slice:
 			es := f.w.Sorts.SortOf(u.Elem())
-			ms.addTarget(memComp(es), memSort(es), SArr(v.T))
+			ms.addTarget(memCompT(u.Elem()), memSort(es), SArr(v.T))
 			return true
 		case *types.Map:
 			ks, vs := f.w.Sorts.SortOf(u.Key()), f.w.Sorts.SortOf(u.Elem())
